@@ -66,9 +66,51 @@ def fixed_view_cases():
     return [{"op": "pipe", "arrays": a, "stages": s} for a, s in cs]
 
 
+def focus_view_cases():
+    """compositions whose result type depends on the operand kind in more than one place (index-array attributes walked per kind,
+    axes that collapse, capacity bounds of the eager result): rendered once per leaf kind (kind sweep) instead of a random sample"""
+    A = lambda shape, start=1: arange_array(shape, start=start)
+    st = lambda f, ins, a: {"f": f, "in": ins, "a": a}
+    cs = []
+    cs.append(([A([2, 1, 3, 4])], [st("squeeze", [0], {})]))
+    cs.append(([A([1, 2, 1, 3, 2])], [st("squeeze", [0], {})]))
+    cs.append(([A([2, 3])], [st("repeat", [0], {"repeats": [2, 1, 3], "axis": 1})]))
+    cs.append(([A([4, 2])], [st("repeat", [0], {"repeats": [1, 2, 1, 2], "axis": 0})]))
+    cs.append(([A([2, 3])], [st("repeat", [0], {"repeats": 2, "axis": 1})]))
+    cs.append(([A([2, 3])], [st("repeat", [0], {"repeats": 2, "axis": None})]))
+    cs.append(([A([1, 1, 4])], [st("diagonal", [0], {"offset": 0, "axis1": 0, "axis2": 1})]))
+    cs.append(([A([2, 1, 3, 1])], [st("diagonal", [0], {"offset": 0, "axis1": 1, "axis2": 3})]))
+    cs.append(([A([2, 3, 2])], [st("diagonal", [0], {"offset": 1, "axis1": 1, "axis2": 0})]))
+    cs.append(([A([2, 3])], [st("diagonal", [0], {"offset": 1, "axis1": 0, "axis2": 1})]))   # negative offsets: known finding of C04/C16, not composed here
+    cs.append(([A([2, 3, 2])], [st("swapaxes", [0], {"axis1": 0, "axis2": -1})]))
+    cs.append(([A([2, 3]), A([4], 10)], [st("concatenate", [0, 1], {"axis": None})]))
+    cs.append(([A([2, 3]), A([4], 10)], [st("reshape", [0], {"shape": [3, 2]}), st("reshape", [1], {"shape": [2, 2]}), st("concatenate", [2, 3], {"axis": None})]))
+    cs.append(([A([4]), A([2, 3], 10)], [st("reshape", [0], {"shape": [2, 2]}), st("reshape", [1], {"shape": [3, 2]}), st("concatenate", [2, 3], {"axis": None})]))
+    cs.append(([A([2, 3])], [st("expand_dims", [0], {"axis": 1})]))
+    cs.append(([A([2, 2, 2])], [st("expand_dims", [0], {"axis": 0})]))
+    return [{"op": "pipe", "arrays": a, "stages": s} for a, s in cs]
+
+
+def kind_sweep(case, rot, cfg="gcc"):
+    """one rendering per leaf kind (all leaves of the case share the kind, the second leaf is shifted by one); attribute kinds rotate
+    deterministically so that every (index-array kind, scalar kind) pair meets every leaf family across the sweep and the seeds"""
+    leaves = [lk for lk in progen.LEAF_KINDS if not (cfg == "nostl" and lk in progen.STL_ONLY_LEAVES)]
+    out = []
+    for i, lk in enumerate(leaves):
+        lks = [leaves[(i + j) % len(leaves)] for j in range(len(case["arrays"]))]
+        for sk in ("int", "ct"):
+            ik = progen.IDX_KINDS[(i + rot + (3 if sk == "ct" else 0)) % len(progen.IDX_KINDS)]
+            aks = [_attr_kinds(s, ik, sk) for s in case["stages"]]
+            if sk == "ct" and not any(aks):
+                continue                      # no attributes: the second rendering would be identical
+            out.append((lks, aks))
+    return out
+
+
 def random_view_case(draw_int, rnd):
     """a random renderable case built with a plain seeded RNG (rnd: random.Random)"""
-    ops = ["transpose", "reshape", "flatten", "expand_dims", "flip", "tile", "broadcast_to", "moveaxis", "add", "multiply", "sum", "concatenate", "squeeze"]
+    ops = ["transpose", "reshape", "flatten", "expand_dims", "flip", "tile", "broadcast_to", "moveaxis", "add", "multiply", "sum", "concatenate", "squeeze",
+           "repeat", "diagonal", "swapaxes", "concatenate_flat"]
     d = rnd.randint(1, 3)
     shape = [rnd.randint(1, 3) for _ in range(d)]
     arrays = [arange_array(shape, start=1)]
@@ -105,6 +147,20 @@ def random_view_case(draw_int, rnd):
             a = {"axis": rnd.choice(list(range(-dd, dd))), "keepdims": rnd.choice([None, "ct_true", "ct_false", True, False])}
         elif op == "concatenate":
             ins = [src, src]; a = {"axis": rnd.randint(0, dd - 1)}
+        elif op == "concatenate_flat":
+            op = "concatenate"; ins = [src, rnd.randint(0, src)]; a = {"axis": None}
+        elif op == "repeat":
+            ax = rnd.choice([None] + list(range(dd)))
+            a = {"repeats": rnd.randint(1, 3) if (ax is None or rnd.random() < 0.4) else [rnd.randint(1, 3) for _ in range(x.shape[ax])], "axis": ax}
+            if isinstance(a["repeats"], list) and len(a["repeats"]) == 1:
+                a["repeats"] = a["repeats"][0]
+        elif op == "diagonal":
+            if dd < 2:
+                continue
+            a1, a2 = rnd.sample(range(dd), 2)
+            a = {"offset": rnd.randint(0, 1), "axis1": a1, "axis2": a2}
+        elif op == "swapaxes":
+            a = {"axis1": rnd.randint(-dd, dd - 1), "axis2": rnd.randint(-dd, dd - 1)}
         s = {"f": op, "in": ins, "a": a}
         try:
             r = np.asarray(refs.REFS[op]([vals[i] for i in ins], a))
@@ -138,7 +194,7 @@ def _attr_kinds(stage, idx_kind, scalar_kind):
     for key, v in a.items():
         if isinstance(v, list):
             out[key] = idx_kind
-        elif isinstance(v, int) and not isinstance(v, bool) and key in ("axis", "source", "destination"):
+        elif isinstance(v, int) and not isinstance(v, bool) and key in ("axis", "source", "destination", "axis1", "axis2", "offset", "repeats"):
             out[key] = scalar_kind
     return out
 
@@ -217,6 +273,10 @@ def view_suite(tier, seed):
             units.append({"case": c, "renderings": kind_assignments(c, rnd, 4, "clang"), "cfg": "clang"})
         if i % (4 if th else 6) == 1:
             units.append({"case": c, "renderings": kind_assignments(c, rnd, 4, "nostl"), "cfg": "nostl"})
+    for i, c in enumerate(focus_view_cases()):
+        units.append({"case": c, "renderings": kind_sweep(c, seed + i), "cfg": "gcc", "focus": True})
+        if th or i % 4 == seed % 4:
+            units.append({"case": c, "renderings": kind_sweep(c, seed + i, "nostl")[:: (1 if th else 3)], "cfg": "nostl", "focus": True})
     return units
 
 
